@@ -342,12 +342,15 @@ func init() {
 		bp := sbBuf(fr, a[0])
 		r := a[1].(*Term)
 		if !r.IsConst() {
-			// ASCII only when symbolic
-			if !w.decideBool(w.T.Bin(OpULt, r, w.T.Const(32, 0x80)), fr) {
-				w.outOfModel("Builder.WriteRune with symbolic non-ASCII rune")
+			// symbolic rune: the real utf8.AppendRune decides the encoding (forks on the rune's range)
+			f := w.E.fnByName("unicode/utf8.AppendRune")
+			if f == nil {
+				w.outOfModel("Builder.WriteRune with symbolic rune (utf8.AppendRune unavailable)")
 			}
-			w.store(bp, w.appendTerms((*bp).(SliceV), []*Term{w.T.Extract(r, 7, 0)}))
-			return Tuple{w.T.Const(64, 1), IfaceV{}}
+			before := (*bp).(SliceV)
+			after := w.callSSA(fr, f, []Value{before, r}, nil).(SliceV)
+			w.store(bp, after)
+			return Tuple{w.T.Const(64, uint64(after.Len-before.Len)), IfaceV{}}
 		}
 		enc := []byte(string(rune(int32(r.Val))))
 		w.store(bp, w.appendTerms((*bp).(SliceV), w.strConst(string(enc)).B))
@@ -628,4 +631,34 @@ func (w *Worker) cmpScaled(si *scaledInfo, op string, c int64) *Term {
 	const maxI, minI = int64(1<<63 - 1), int64(-1 << 63)
 	return T.Ite(si.ovf, T.Ite(si.before, cmpConst(minI), cmpConst(maxI)),
 		T.Ite(si.big, cmpConst(maxI), T.Ite(si.small, cmpConst(minI), inner)))
+}
+
+// ---- strings.ToLower / ToUpper: branch-free on ASCII input (exact there); non-ASCII input runs the real code ----
+func init() {
+	mk := func(lower bool) modelFn {
+		return func(fr *frame, a []Value) Value {
+			w := fr.w
+			T := w.T
+			s := a[0].(Str)
+			anyHigh := T.False
+			for _, b := range s.B {
+				anyHigh = T.Or(anyHigh, T.Bin(OpULe, T.Const(8, 0x80), b))
+			}
+			if w.decideBool(anyHigh, fr) {
+				return w.callSSAReal(fr, fr.fn, a)
+			}
+			lo, hi, delta := byte('A'), byte('Z'), uint64(32)
+			if !lower {
+				lo, hi, delta = 'a', 'z', uint64(256-32)
+			}
+			out := make([]*Term, len(s.B))
+			for i, b := range s.B {
+				in := T.And(T.Bin(OpULe, T.Const(8, uint64(lo)), b), T.Bin(OpULe, b, T.Const(8, uint64(hi))))
+				out[i] = T.Ite(in, T.Bin(OpAdd, b, T.Const(8, delta)), b)
+			}
+			return Str{out}
+		}
+	}
+	models["strings.ToLower"] = mk(true)
+	models["strings.ToUpper"] = mk(false)
 }
